@@ -48,6 +48,9 @@ BFE_CASES = [
     ("ok", "fn f(&mut self) -> [BFieldElement; 16] { self.g2(); self.state }", "(self, self)"),                              # value and final *self
     ("ok", "fn f(d: Domain) -> u64 { let mut r = 0; match d { VariableLength => (), FixedLength => { r = 5; } } r }", "if (d == 0)"),
     ("ok", "fn f(&mut self, inp: [BFieldElement; 10]) { self.state[..10].copy_from_slice(&inp); }", "++ self.drop 10"),
+    ("ok", "fn f(&mut self) -> [BFieldElement; 5] { self.state[..5].try_into().unwrap() }", "(self.take 5"),
+    ("ok", "fn f(d: Domain) -> Self { let mut state = [BFieldElement::ZERO; STATE_SIZE]; match d { VariableLength => (), FixedLength => { let mut i = 10; while i < STATE_SIZE { state[i] = BFieldElement::ONE; i += 1; } } } Self { state } }", "Option (List Nat)"),
+    ("refuse", "fn f(&mut self) -> u64 { let t = self.state[..5].try_into().unwrap(); 1 }", None),   # target length unknown
     ("refuse", "fn f(a: BFieldElement) -> BFieldElement { a + 1 }", None),                         # integer literal and field element
     ("refuse", "fn f(a: BFieldElement, b: BFieldElement) -> BFieldElement { a / b }", None),      # Div is not translated
     ("refuse", "fn f(a: BFieldElement) -> BFieldElement { a << 1 }", None),
@@ -98,7 +101,7 @@ def bfe_cases():
     B.CTX["sigs"]["g2"] = info
     out = []
     for exp, src, needle in BFE_CASES:
-        self_ty = st if "self" in src.split(")")[0] else "bfe"
+        self_ty = st if ("self" in src.split(")")[0] or "Self {" in src) else "bfe"
         try:
             text, _, _, _ = L.translate_fn(src, "f", "f", "<test>", consts, dict(tfns), dict(pfns), self_ty=self_ty,
                                            translator_cls=B.BfeFnTranslator)
